@@ -106,6 +106,10 @@ func drive(prop string, r *rand.Rand, w *writer, n int) {
 		driveGroup(r, w, n, true)
 	case "C17":
 		driveVariants(r, w, n)
+	case "C04":
+		driveTree(r, w, n)
+	case "C09":
+		driveOpen(r, w, n)
 	case "C14":
 		driveMeasure(r, w, n)
 	case "C15":
@@ -169,6 +173,25 @@ func reexec(b []byte, w *writer) {
 		old := e.Probes
 		execVariants(r, &e)
 		e.Probes = mergeProbes(e.Probes, old)
+		w.emit(&e)
+	case "TreeOp":
+		var e TreeEv
+		if err := json.Unmarshal(b, &e); err != nil {
+			fatal(err)
+		}
+		old := e.Probes
+		execTree(r, &e)
+		e.Probes = mergeProbes(e.Probes, old)
+		w.emit(&e)
+	case "OpenOp":
+		var e OpenEv
+		if err := json.Unmarshal(b, &e); err != nil {
+			fatal(err)
+		}
+		old, oldOn := e.Probes, e.OnProbes
+		execOpen(r, &e)
+		e.Probes = mergeProbes(e.Probes, old)
+		e.OnProbes = mergeProbes(e.OnProbes, oldOn)
 		w.emit(&e)
 	case "Measure":
 		var e MeasureEv
